@@ -16,6 +16,9 @@ func (ex *Exec) bigConst(v *big.Int) *Term {
 	if ex.IntMode {
 		return IntC(v)
 	}
+	if v.BitLen() >= ex.BigW {
+		unsupported("big.Int constant of %d bits exceeds the model width %d (raise bigw)", v.BitLen(), ex.BigW)
+	}
 	return BVC(v, ex.BigW)
 }
 
@@ -422,6 +425,7 @@ func init() {
 			// unbounded value: only the length is modelled, as an arbitrary n >= 0 with n == 0 <=> a == 0
 			n := NewVar("bitsLen", IntSort)
 			n.Lo = bigZero
+			st.AuxVars = append(st.AuxVars, n)
 			st.Assume(ICmpRaw("<=", IntC64(0), n))
 			st.Assume(Eq(Eq(n, IntC64(0)), Eq(a, IntC64(0))))
 			return []Value{SliceV{SymLen: n}}
